@@ -50,3 +50,7 @@ impl Expression {
     pub fn collect_binding_map_keys(&self, bmc: &mut BindingMapCollector, bmk: &mut BindingMapKeys)
     { unimplemented!() }
 }
+impl BindingMapCollector {
+    #[verifier::external_body]
+    pub fn new() -> (r: Self) { unimplemented!() }
+}
